@@ -22,39 +22,39 @@ type View struct {
 
 	Params st.Params
 
-	Defs     map[string]st.ServiceDefinition // by name (from value)
-	DefRaw   map[string][]byte               // raw value by name
-	DefKeys  [][]byte
-	Bindings []BindingRec // key order
-	Owner    []RawRec     // 0x04 raw
-	OwnerProv []RawRec    // 0x05 raw
-	OwnerBind []RawRec    // 0x03 raw
-	Pricing  []RawRec     // 0x06 raw
-	Withdraw []RawRec     // 0x07 raw
+	Defs      map[string]st.ServiceDefinition // by name (from value)
+	DefRaw    map[string][]byte               // raw value by name
+	DefKeys   [][]byte
+	Bindings  []BindingRec // key order
+	Owner     []RawRec     // 0x04 raw
+	OwnerProv []RawRec     // 0x05 raw
+	OwnerBind []RawRec     // 0x03 raw
+	Pricing   []RawRec     // 0x06 raw
+	Withdraw  []RawRec     // 0x07 raw
 
 	Ctxs   map[string]*st.RequestContext // by ID hex (ID = key[1:], fixed-length identifier, also cross-checked against queue values)
 	CtxIDs []string                      // key order
 
-	ExpQ []QueueRec // 0x09
-	NewQ []QueueRec // 0x10
+	ExpQ []QueueRec       // 0x09
+	NewQ []QueueRec       // 0x10
 	ExpH map[string]int64 // 0x11 by ctx hex (key[1:])
 	NewH map[string]int64 // 0x12
 
-	Reqs   map[string]*st.CompactRequest // 0x13 by request ID hex (key[1:])
-	ReqIDs []string
-	Active []ActiveRec         // 0x14, value = request ID
-	ActiveByID map[string]bool // 0x15, value = request ID
-	ActiveByIDKeys map[string]string // value id hex -> key[1:] hex
-	Resps  map[string]*st.Response // 0x16 by key[1:]
-	RespIDs []string
-	Vol    []RawRec // 0x17
-	Earned []RawRec // 0x18 value = Coin
-	OwnerEarned []RawRec // 0x19
-	Unknown []RawRec // any other prefix
+	Reqs           map[string]*st.CompactRequest // 0x13 by request ID hex (key[1:])
+	ReqIDs         []string
+	Active         []ActiveRec             // 0x14, value = request ID
+	ActiveByID     map[string]bool         // 0x15, value = request ID
+	ActiveByIDKeys map[string]string       // value id hex -> key[1:] hex
+	Resps          map[string]*st.Response // 0x16 by key[1:]
+	RespIDs        []string
+	Vol            []RawRec // 0x17
+	Earned         []RawRec // 0x18 value = Coin
+	OwnerEarned    []RawRec // 0x19
+	Unknown        []RawRec // any other prefix
 
-	Bal    map[string]*big.Int // by address hex, denom stake
+	Bal         map[string]*big.Int // by address hex, denom stake
 	OtherDenoms []string
-	Supply *big.Int
+	Supply      *big.Int
 }
 
 type RawRec struct {
@@ -281,7 +281,6 @@ func bytesVal(raw []byte) []byte {
 	mustUnmarshal(raw, &b)
 	return b.Value
 }
-
 
 const unknownAcc = "FFFF"
 
